@@ -204,7 +204,10 @@ def evaluate(ctx, node, case):
     krylov = case["alg"] in ("Lanczos", "Arnoldi")
     eps = max(ref.eps, 1e-9 if krylov else 0.0)
     shape = (n, ) if case["cols"] == 0 else (n, case["cols"])
-    v = P.operand(case["seed"], shape, P.code_of(ref.dtype), "normal")
+    vdt = P.code_of(ref.dtype)
+    if vdt in ("f4", "f8") and case["seed"] % 5 == 1:
+        vdt = {"f4": "c8", "f8": "c16"}[vdt]  # a complex operand for a real operator: f(A) (u + i w) = f(A) u + i f(A) w
+    v = P.operand(case["seed"], shape, vdt, "normal")
     if v.ndim == 2 and v.shape[1] > 1:
         v = v * np.array([1e-6, 1.0, 1e6][:v.shape[1]]).astype(v.dtype)  # very different column norms
         if case["seed"] % 4 == 0:
